@@ -2,6 +2,7 @@ import DaskModel.Lemmas.Blockwise
 import DaskModel.Lemmas.Annot
 import DaskModel.Lemmas.HLG
 import DaskModel.Model.HLG
+import DaskModel.Model.Rewrite
 import DaskModel.Model.Annot
 import DaskModel.Generated.FuseRules
 /-! # C10 — high-level graph culling and blockwise fusion (theorems)
@@ -566,6 +567,112 @@ example : TopoH [⟨true, [(3, [2, 1])], [3]⟩, ⟨true, [(2, [1]), (1, [])], [
   simp [TopoH, TopoL, allTasks, HLG.keysOf]
 
 end HLGCull
+
+/-! ## 2c. `rewrite_blockwise`: one supply of fresh names for the contracted indices of ALL fused producers -/
+section RewriteFresh
+open Dask.Rewrite
+
+/-- the invariant: the names handed out so far are exactly `0 … supply-1`, each once -/
+def AllocInv (st : St) : Prop := st.allocs.flatten = List.range st.supply
+
+theorem range_append_shift (n k : Nat) : List.range n ++ (List.range k).map (· + n) = List.range (n + k) := by
+  induction k with
+  | zero => simp
+  | succ j ih =>
+    rw [List.range_succ, List.map_append, ← List.append_assoc, ih]
+    have : n + (j + 1) = (n + j) + 1 := by omega
+    rw [this, List.range_succ]
+    simp [Nat.add_comm j n]
+
+theorem fuseStep_inv (p : BLayer) (i : Nat) (cur : List String) (st st' : St) (h : fuseStep p i cur st = some st')
+    (hinv : AllocInv st) : AllocInv st' := by
+  unfold fuseStep at h
+  simp only [Option.bind_eq_bind, Option.pure_def] at h
+  cases hna : List.foldlM (fun acc kv => Option.map (fun k' => setAxis acc k' kv.snd)
+      (dictGet (p.outInd.zip cur ++ (contractedOf p).zip (List.map freshName (List.map (fun x => x + st.supply) (List.range (contractedOf p).length)))) kv.fst))
+      st.newAxes p.newAxes with
+  | none => rw [hna] at h; simp at h
+  | some na =>
+    rw [hna] at h
+    simp only [Option.bind_some] at h
+    injection h with h
+    subst h
+    unfold AllocInv at hinv ⊢
+    simp only [List.flatten_append, List.flatten_cons, List.flatten_nil, List.append_nil, hinv]
+    exact range_append_shift st.supply (contractedOf p).length
+
+theorem forLoop_inv (inputs : List BLayer) : ∀ (fuel i : Nat) (st : St) (ch : Bool) (r : St × Bool),
+    forLoop inputs fuel i st ch = some r → AllocInv st → AllocInv r.1 := by
+  intro fuel
+  induction fuel with
+  | zero => intro i st ch r h; simp [forLoop] at h
+  | succ n ih =>
+    intro i st ch r h hinv
+    simp only [forLoop] at h
+    split at h
+    · injection h with h; subst h; exact hinv
+    · exact ih _ _ _ _ h hinv
+    · split at h
+      · exact ih _ _ _ _ h hinv
+      · rename_i p hp
+        split at h
+        · simp at h
+        · rename_i st' hst'
+          exact ih _ _ _ _ h (fuseStep_inv p _ _ st st' hst' hinv)
+
+theorem whileLoop_inv (inputs : List BLayer) : ∀ (fuel : Nat) (st r : St), whileLoop inputs fuel st = some r →
+    AllocInv st → AllocInv r := by
+  intro fuel
+  induction fuel with
+  | zero => intro st r h; simp [whileLoop] at h
+  | succ n ih =>
+    intro st r h hinv
+    simp only [whileLoop] at h
+    split at h
+    · simp at h
+    · rename_i st' changed hfl
+      have h1 := forLoop_inv inputs _ _ _ _ _ hfl hinv
+      split at h
+      · exact ih _ _ h h1
+      · injection h with h; subst h; exact h1
+
+/-- **fresh_names_distinct.** In one `rewrite_blockwise` call the generator names handed to the contracted indices of
+    the fused producers are pairwise distinct — across producers (two sibling contraction layers never share a
+    contracted index name) and within one producer: the `k`-th name handed out is generator position `k`. -/
+theorem fresh_names_distinct (fuel : Nat) (inputs : List BLayer) (root : String) (f : Fused)
+    (h : rewrite fuel inputs root = some f) :
+    f.allocs.flatten.Nodup ∧ ∃ n, f.allocs.flatten = List.range n := by
+  unfold rewrite at h
+  simp only [Option.bind_eq_bind, Option.pure_def] at h
+  cases hr : lookupL inputs root with
+  | none => rw [hr] at h; simp at h
+  | some r =>
+    rw [hr] at h
+    simp only [Option.bind_some] at h
+    cases hw : whileLoop inputs fuel { indices := r.indices, newAxes := r.newAxes, supply := 0, allocs := [] } with
+    | none => rw [hw] at h; simp at h
+    | some st =>
+      rw [hw] at h
+      simp only [Option.bind_some] at h
+      injection h with h
+      subst h
+      have := whileLoop_inv inputs fuel _ st hw (by simp [AllocInv])
+      unfold AllocInv at this
+      simp only
+      rw [this]
+      exact ⟨List.nodup_range, st.supply, rfl⟩
+
+/-- the generator itself: `A … Z, A1 … Z1, A2 …` (a test of the first 104 names, not a theorem about all) -/
+example : ((List.range 104).map freshName).Nodup := by decide
+example : freshName 0 = "A" ∧ freshName 25 = "Z" ∧ freshName 26 = "A1" ∧ freshName 53 = "B2" := by decide
+
+/-- non-vacuity: two sibling producers, each contracting one index, get `A` and `B` -/
+example : (rewrite 100 [⟨"z", [".0"], [("y1", some [".0"]), ("y2", some [".0"])], []⟩,
+                        ⟨"y1", [".0"], [("a", some [".0", ".1"])], []⟩,
+                        ⟨"y2", [".0"], [("b", some [".0", ".1"]), ("c", none)], []⟩] "z").map (fun f => (f.indices, f.allocs))
+    = some ([("a", some [".0", "A"]), ("b", some [".0", "B"]), ("c", none)], [[0], [1]]) := by decide
+
+end RewriteFresh
 
 /-! ## 3. fused annotations never loosen a constraint (over the EXTRACTED rule table) -/
 section Annotations
